@@ -125,11 +125,11 @@ class C20(common.Check):
         for ln in (1, 2, 3, 4) + ((5,) if tier == "thorough" else ()):
             for seq in itertools.product(range(n), repeat=ln):
                 k += 1
-                out.append([list(seq), ("corp.example", None, "a.b.c.d.test")[k % 3]])
+                out.append([list(seq), ("corp.example", None, "a.b.c.d.test", "")[k % 4]])  # "" = the domain of a blob whose key identifier has none
         if tier == "quick":
             rng = prng.stream(seed, "C20")
             for _ in range(20000):
-                out.append([[rng.randrange(n) for _ in range(rng.choice((5, 5, 6, 8)))], rng.choice(("corp.example", None))])
+                out.append([[rng.randrange(n) for _ in range(rng.choice((5, 5, 6, 8)))], rng.choice(("corp.example", None, ""))])
         return out
 
     def run_case(self, case):
@@ -142,6 +142,7 @@ class C20(common.Check):
                 yield [idxs[:i] + idxs[i + 1 :], dom]
         if dom:
             yield [idxs, None]
+            yield [idxs, ""]
 
     def sample_repr(self, case, res):
         return {"records_priority_weight_spelling": [RECORD_TYPES[i] for i in case[0]], "domain": case[1]}
